@@ -589,6 +589,84 @@ def _raw_operator(mk, var):
                 debug=dict(skip_singlet=False, skip_non_singlet=False))
 
 
+class _Captured(Exception):
+    pass
+
+
+class _OpProbe:
+    """Stand-in for evolution_operator.Operator / OperatorMatrixElement inside runner.parts: records what the
+    computation is handed (configs, managers) and stops before computing."""
+
+    got = []
+
+    def __init__(self, config, managers, *a, **k):
+        _OpProbe.got.append((config, managers))
+
+    def compute(self):
+        raise _Captured()
+
+
+class _CommonsProxy:
+    """runner.commons as seen by runner.parts: interpolator is the real function; atlas / couplings (numerical objects that
+    have nothing to do with the interpolation settings) are placeholders."""
+
+    def __init__(self, real):
+        self._real = real
+
+    def __getattr__(self, name):
+        return getattr(self._real, name)
+
+    def atlas(self, *a, **k):
+        return "atlas-placeholder"
+
+    def couplings(self, *a, **k):
+        return "couplings-placeholder"
+
+
+def _parts_module(npmod=None):
+    import importlib
+    import types
+
+    parts = importlib.import_module("eko.runner.parts")
+    if not isinstance(parts.commons, _CommonsProxy):
+        real_evop = parts.evop
+        parts.evop = types.SimpleNamespace(Operator=_OpProbe, Managers=real_evop.Managers)
+        parts.ome = types.SimpleNamespace(OperatorMatrixElement=_OpProbe)
+        parts.commons = _CommonsProxy(parts.commons)
+    if npmod is not None:
+        parts.np = npmod
+    return parts
+
+
+def _through_runner(parts, route, theory, card):
+    """(configs, managers) that parts.evolve / parts.match hand to the operator computation"""
+    import types
+    from eko.io.items import Evolution, Matching
+
+    eko = types.SimpleNamespace(theory_card=theory, operator_card=card)
+    del _OpProbe.got[:]
+    try:
+        if route == "evolve":
+            parts.evolve(eko, Evolution(origin=10.0, target=100.0, nf=4, cliff=False))
+        else:
+            parts.match(eko, Matching(scale=25.0, hq=5, inverse=False))
+    except _Captured:
+        pass
+    return _OpProbe.got[-1]
+
+
+def _expected_configs(theory, card, route):
+    """what the declared cards say about the settings runner.parts passes on (field docstrings of the cards)"""
+    c = card.configs
+    want = dict(order=theory.order, method=c.evolution_method.value, ev_op_iterations=c.ev_op_iterations, ev_op_max_order=c.ev_op_max_order,
+                polarized=c.polarized, time_like=c.time_like, debug_skip_singlet=card.debug.skip_singlet,
+                debug_skip_non_singlet=card.debug.skip_non_singlet, n_integration_cores=c.n_integration_cores, ModSV=c.scvar_method,
+                n3lo_ad_variation=theory.n3lo_ad_variation, use_fhmruvv=theory.use_fhmruvv, matching_order=theory.matching_order)
+    if route == "match":
+        want["backward_inversion"] = c.inversion_method
+    return want
+
+
 def case_interpolator(log, var):
     import importlib
 
@@ -599,6 +677,13 @@ def case_interpolator(log, var):
     ip.BasisFunction = _BasisRecorder
     log.encode(commons.interpolator, ip.InterpolatorDispatcher.__init__, OperatorCard)
     n = var.get("n", 4)
+    route = var.get("route", "commons")
+    parts = None
+    if route != "commons":
+        parts = _parts_module(cnp)
+        log.encode(parts._managers, parts._evolve_configs, parts._matching_configs, parts.evolve, parts.match)
+    via = {"commons": "commons.interpolator(card)", "evolve": "runner.parts.evolve -> Operator(managers.interpolator)",
+           "match": "runner.parts.match -> OperatorMatrixElement(managers.interpolator)"}[route]
 
     def run():
         mk = CS.SymMk(var.get("flavour", "py"))
@@ -608,37 +693,58 @@ def case_interpolator(log, var):
             card = OperatorCard.from_dict(_raw_operator(mk, var))
         del _BasisRecorder.made[:]
         rk = {"var": var}
+        theory = b_theory(mk, {"k": 0}) if route != "commons" else None
+        cfg = None
         try:
-            disp = commons.interpolator(card)
+            if route == "commons":
+                disp = commons.interpolator(card)
+            else:
+                cfg, managers = _through_runner(parts, route, theory, card)
+                disp = managers.interpolator
         except Exception as e:
             if _engine_exc(e):
                 raise
-            v = prove_formula(z3.BoolVal(False), "commons.interpolator(card) is computed (raised %s: %s)" % (type(e).__name__, e))
-            _decide(log, v, key="interpolator:raises", replay=(MOD, "replay_interpolator", rk), candidates=[{}])
+            v = prove_formula(z3.BoolVal(False), "%s is computed (raised %s: %s)" % (via, type(e).__name__, e))
+            _decide(log, v, key="interpolator:raises", replay=(MOD, "replay_interpolator", dict(rk, aspect="raises")), candidates=[{}])
             return None
+        if cfg is not None:
+            want = _expected_configs(theory, card, route)
+            c = CS.Cmp()
+            for name in sorted(want):
+                if name not in cfg:
+                    c.mismatch.append("%s missing" % name)
+                else:
+                    c.same(cfg[name], want[name], name)
+            c.leaf(cfg.get("xif2", 0), theory.xif * theory.xif, "xif2")
+            v = prove_formula(c.formula() if not c.mismatch else z3.BoolVal(False),
+                              "%s: the configs handed to the computation are the cards' settings %s" % (via, c.mismatch[:2] or ""))
+            _decide(log, v, key="runner.parts:configs", replay=(MOD, "replay_interpolator", dict(rk, aspect="configs")), candidates=[{}])
         is_log = card.configs.interpolation_is_log
         deg = card.configs.interpolation_polynomial_degree
         c = CS.Cmp()
         c.leaf(disp.log, is_log, "log")
-        v = prove_formula(c.formula() if not c.mismatch else z3.BoolVal(False), "interpolator(card).log == card.configs.interpolation_is_log")
+        v = prove_formula(c.formula() if not c.mismatch else z3.BoolVal(False), via + ": interpolator.log == card.configs.interpolation_is_log")
         klog = "interpolator:log" if var["source"] == "raw" else "interpolator:log:card-object"
+        if route != "commons":
+            klog = "runner.parts:interpolator.log"
+        kpre = "interpolator:" if route == "commons" else "runner.parts:interpolator."
         _decide(log, v, key=klog, replay=(MOD, "replay_interpolator", dict(rk, aspect="log")), candidates=[{}])
         c = CS.Cmp()
         c.leaf(disp.polynomial_degree, deg, "degree")
         v = prove_formula(c.formula() if not c.mismatch else z3.BoolVal(False),
-                          "interpolator(card).polynomial_degree == card.configs.interpolation_polynomial_degree")
-        _decide(log, v, key="interpolator:degree", replay=(MOD, "replay_interpolator", dict(rk, aspect="degree")), candidates=[{}])
+                          via + ": interpolator.polynomial_degree == card.configs.interpolation_polynomial_degree")
+        _decide(log, v, key=kpre + "degree", replay=(MOD, "replay_interpolator", dict(rk, aspect="degree")), candidates=[{}])
         # the interpolator sits on the card's nodes
         c = CS.Cmp()
         c.same(disp.xgrid.raw, card.xgrid.raw, "interpolator.xgrid.raw")
         v = prove_formula(c.formula() if not c.mismatch else z3.BoolVal(False),
-                          "interpolator(card).xgrid.raw == card.xgrid.raw (the nodes of the interpolator are the card's nodes)%s" % (c.mismatch[:1] or ""))
-        _decide(log, v, key="interpolator:nodes", replay=(MOD, "replay_interpolator", dict(rk, aspect="nodes")), candidates=[{}])
+                          via + ": interpolator.xgrid.raw == card.xgrid.raw (the nodes of the interpolator are the card's nodes)%s" % (c.mismatch[:1] or ""))
+        _decide(log, v, key=kpre + "nodes", replay=(MOD, "replay_interpolator", dict(rk, aspect="nodes")), candidates=[{}])
         c = CS.Cmp()
         for bf in _BasisRecorder.made:
             c.leaf(bf._mode_log, is_log, "basis.mode_log")
         ok = len(_BasisRecorder.made) == n and not c.mismatch
-        v = prove_formula(c.formula() if ok else z3.BoolVal(False), "all %d basis functions are built with mode_log == interpolation_is_log" % n)
+        v = prove_formula(c.formula() if ok else z3.BoolVal(False), via + ": all %d basis functions are built with mode_log == interpolation_is_log" % n)
         _decide(log, v, key=klog, replay=(MOD, "replay_interpolator", dict(rk, aspect="basis")), candidates=[{}])
         # every block [kmin,kmax] spans degree+1 grid points inside the grid
         fs = []
@@ -649,8 +755,8 @@ def case_interpolator(log, var):
                 zmax = kmax.e if isinstance(kmax, CS.IL) else kmax
                 zdeg = deg.e if isinstance(deg, CS.IL) else deg
                 fs.append(z3.And(zmax - zmin == zdeg, zmin >= 0, zmax <= n - 1))
-        v = prove_formula(z3.And(fs) if ok and fs else z3.BoolVal(False), "every interpolation block spans degree+1 points of the grid")
-        _decide(log, v, key="interpolator:blocks", replay=(MOD, "replay_interpolator", dict(rk, aspect="blocks")), candidates=[{}])
+        v = prove_formula(z3.And(fs) if ok and fs else z3.BoolVal(False), via + ": every interpolation block spans degree+1 points of the grid")
+        _decide(log, v, key=kpre + "blocks", replay=(MOD, "replay_interpolator", dict(rk, aspect="blocks")), candidates=[{}])
         log.twin("domain")
         log.collect_ctx()
 
@@ -1008,15 +1114,39 @@ def replay_interpolator(point, var, aspect="log"):
     is_log = bool(card.configs.interpolation_is_log)
     if not 1 <= deg < len(card.xgrid):
         return None
-    disp = commons.interpolator(card)
+    route = var.get("route", "commons")
+    via = "commons.interpolator(card)"
+    try:
+        if route == "commons":
+            disp = commons.interpolator(card)
+        else:
+            via = "the interpolator runner.parts.%s hands to the computation" % route
+            theory = b_theory(CS.ConcMk({}, "py"), {"k": 0})
+            cfg, managers = _through_runner(_parts_module(), route, theory, card)
+            disp = managers.interpolator
+    except Exception as e:
+        return {"detail": "%s: %s raised %s: %s" % (origin, via, type(e).__name__, e)} if aspect == "raises" else None
+    if aspect == "raises":
+        return None
+    origin = "%s: %s" % (origin, via)
+    if aspect == "configs":
+        want = _expected_configs(theory, card, route)
+        want["xif2"] = float(theory.xif) ** 2
+        diffs = []
+        for name in sorted(want):
+            if name not in cfg:
+                diffs.append("%s missing" % name)
+            else:
+                diffs.extend(CS.concrete_same(cfg[name], want[name], name, rtol=1e-12))
+        return {"detail": "%s: configs differ from the cards: %s" % (origin, "; ".join(diffs[:3]))} if diffs else None
     if aspect == "log" and bool(disp.log) != is_log:
-        return {"detail": "%s: commons.interpolator(card).log = %r" % (origin, disp.log)}
+        return {"detail": "%s: .log = %r" % (origin, disp.log)}
     if aspect == "nodes":
         got, want = np.asarray(disp.xgrid.raw, dtype=float), np.asarray(card.xgrid.raw, dtype=float)
         if got.shape != want.shape or not np.allclose(got, want, rtol=1e-10, atol=0.0):
             return {"detail": "%s: the interpolator's nodes are %r, the card's grid is %r" % (origin, got.tolist(), want.tolist())}
     if aspect == "degree" and int(disp.polynomial_degree) != deg:
-        return {"detail": "%s: commons.interpolator(card).polynomial_degree = %r" % (origin, disp.polynomial_degree)}
+        return {"detail": "%s: .polynomial_degree = %r" % (origin, disp.polynomial_degree)}
     if aspect == "basis":
         modes = [bool(bf._mode_log) for bf in disp.basis]
         if len(modes) != len(card.xgrid) or any(m != is_log for m in modes):
@@ -1040,7 +1170,9 @@ def main():
         "x grids of 3 points (4 for the interpolator, 2..4 thorough), sorted and unsorted input, list and ndarray input, log flag symbolic; mugrid of 1..2 points",
         "synthetic DictLike classes: one per field kind (scalars, np.ndarray / npt.NDArray / npt.NDArray[float64] / Optional[NDArray], tuple, enum, nested "
         "DictLike + list of DictLike + plain dataclass, Optional[...], List[...], dict, XGrid, NewType, defaults)",
-        "interpolator: cards given as objects and as raw runcards, degree symbolic in 1..n-1",
+        "interpolator: cards given as objects (grid flag and interpolation_is_log independent) and as raw runcards, degree symbolic in 1..n-1; "
+        "obtained from commons.interpolator and from what runner.parts.evolve / runner.parts.match hand to Operator / OperatorMatrixElement "
+        "(the only readers of the interpolation settings under src/eko/runner), together with the configs dictionary they pass",
     ]
     chk.out_of_claim = [
         "PyYAML itself (text form, float repr round trip) -- replays do run yaml.safe_dump/safe_load on the concrete counterexample",
@@ -1056,6 +1188,8 @@ def main():
         "numpy: array()/tolist()/unique()/log() on leaves modelled by dtype promotion (bool < int64 < float64), exact values, np.unique = sort + drop equal by "
         "forking on comparisons",
         "interpolation.BasisFunction replaced by a recorder of (poly_number, blocks, mode_log) in the interpolator cases",
+        "runner.parts cases: evolution_operator.Operator / OperatorMatrixElement replaced by a probe recording (configs, managers) and stopping "
+        "before compute(); commons.atlas / commons.couplings replaced by placeholders (also in the replays); the EKO is a namespace holding the two cards",
     ]
     chk.assumptions = ["structural goals (raw is computed / is plain / from_dict is computed) have no numeric content: they are recorded as path-feasibility "
                        "queries (violated iff the path on which the structure goes wrong is feasible)"]
@@ -1117,6 +1251,10 @@ def main():
     # interpolator
     chk.case("interpolator.raw-card", case_interpolator, var={"source": "raw", "n": 4})
     chk.case("interpolator.object", case_interpolator, var={"source": "object", "n": 4, "k": 0, "nmu": 1})
+    # every consumer of the card's interpolation settings in the runner: parts._managers, reached from evolve and match
+    for route in ("evolve", "match"):
+        chk.case("runner.parts.%s.raw-card" % route, case_interpolator, var={"source": "raw", "n": 4, "route": route})
+        chk.case("runner.parts.%s.object" % route, case_interpolator, var={"source": "object", "n": 4, "k": 0, "nmu": 1, "route": route})
     if thorough:
         for n in (2, 3, 5):
             chk.case("interpolator.raw-card.n%d" % n, case_interpolator, var={"source": "raw", "n": n})
